@@ -32,6 +32,7 @@ RULE += (' Also: adapter and future-like underlying iterators; a second task clo
 RULE += (' Also: the handle as one of several inputs of a tool at every position (zip strict with 3-4 inputs, zip(h, h), map with two inputs, chain middle, compress selectors, merge with a second source); a tool ending in ValueError is compared like one that ends.')
 RULE += (' Also: scopes over borrowed handles left by an Exception / BaseException raised in the block.')
 RULE += (' Also: a front-end iterator whose __aiter__ hands out the inner iterator shared with its owner.')
+RULE += (' Also: a refused re-entry of the active scope context inside the block; a stale-group poll tool.')
 ASSUMPTIONS = ["laziness of the tools themselves is C05's concern; here the stdlib twin predicts how many items a tool takes",
                "athrow is not part of the property's operation list and is not generated"]
 EXHAUSTIVE_SUBSPACES = 'all histories of length <= 3 (thorough: 4) over a 13-operation alphabet'
